@@ -180,7 +180,33 @@ class Harness:
                     csock.shutdown(socket.SHUT_WR)
                 except OSError:
                     pass
-            if mode == "close":
+            if mode == "trickle":
+                # stay connected and keep sending a byte now and then: a server that has rejected the request must
+                # close the connection all the same
+                import select as _select
+                for _ in range(12):
+                    r, _w, _x = _select.select([csock], [], [], 0.25)
+                    if r:
+                        try:
+                            d = csock.recv(65536)
+                        except OSError as e:
+                            eof = True
+                            client_err = "recv:" + errno.errorcode.get(e.errno, str(e.errno))
+                            break
+                        if not d:
+                            eof = True
+                            break
+                        received += d
+                        continue
+                    try:
+                        csock.sendall(b"Z")
+                    except OSError:
+                        eof = True
+                        break
+                if not eof:
+                    client_err = "still-open-while-client-trickles"
+                csock.close()
+            elif mode == "close":
                 csock.close()
             elif mode == "close_pending":
                 # read a little, then close with unread data pending
